@@ -751,6 +751,8 @@ class ImportanceNestedSampler(BaseNestedSampler):
                 f"Unknown threshold method: {self.threshold_method}. "
                 "Choose from: ['entropy', 'quantile']"
             )
+        if self.n_initial < self.min_samples:
+            raise ValueError("`n_initial` cannot be less than `min_samples`")
         logger.debug("Sampler configuration is valid")
         return True
 
